@@ -662,6 +662,13 @@ func (r *mxRunner) snap() []string {
 				}
 			}
 		}
+		if r.variant != "ll" {
+			// a delta update may only be served by a playlist that advertises CAN-SKIP-UNTIL (RFC 8216bis 6.2.5.1): the
+			// MPEG-TS and fMP4 variants advertise none, so `_HLS_skip` must be answered with the full playlist
+			if pd, _, _, _ := r.fetchPlaylist(si, "_HLS_skip=YES"); pd != nil && (pd.hasSkip || len(pd.segs) != len(p.segs) || pd.mapURI != p.mapURI) {
+				r.failf("C15 stream %d: a playlist that advertises no CAN-SKIP-UNTIL answered _HLS_skip=YES with a delta update (EXT-X-SKIP=%v, %d/%d segments, MAP %q)", si, pd.hasSkip, len(pd.segs), len(p.segs), pd.mapURI)
+			}
+		}
 		if r.variant == "ll" {
 			pd, _, code, _ := r.fetchPlaylist(si, "_HLS_skip=YES")
 			if pd == nil {
